@@ -28,6 +28,7 @@ RULE = (
     ' Round 7: histories run on the virtual loop with idle periods (`sleep`): any write attempt while nothing is received is a violation; a decoded message received while the version is unknown owes the query whatever else happens to it.'
     ' Round 9: `session` events; `persistence_file=unwritable`; a refused id request that was owed an answer is reported.'
     ' Round 10: long stored values in the per-type sweep.'
+    ' Round 11: environment sweep (see C03); zones with daylight saving rules asked in their summer and winter (DST_POINTS).'
 )
 ASSUMPTIONS = [
     "time zones are fixed-offset POSIX TZ strings applied with time.tzset(); the handler module's `time` attribute is shimmed when present",
